@@ -138,7 +138,7 @@ func checkC06(p *Program, r *Report) {
 	base58ByteLookup(p, r, "C06.canon")
 	memoCoherence(p, r, "C06.memo", "", "WIF", nil)
 	if n := rejectionVocabulary(p, r, "C06.accepts", fn, []string{`len\(call .*base58\.Decode\)`, `call .*base58\.Decode\[33\]`, `call bytes\.Equal`},
-		"the decoded length, the compression marker and the checksum"); n == 0 {
+		"the decoded length, the compression marker and the checksum", approvedChecksumConds(p, fn)); n == 0 {
 		r.Unresolved("C06.accepts", "rejection tests of DecodeWIF")
 	}
 	r.Floor("C06.accepts", 3)
